@@ -187,6 +187,7 @@ def stage_oracle(ctx: Ctx, progs):
                 if schedule == 'warm':
                     warm_targeted(root, op)
                 anc_paths = [repr(op['path'][:i]) for i in range(len(op['path']) + 1)]
+                before_src = root.src
                 r, e = edits.apply(root, op)
                 hist.append({'op': edits.op_brief(op), 'result': r})
                 if r != 'ok':
@@ -200,6 +201,8 @@ def stage_oracle(ctx: Ctx, progs):
                     sig = f'query|{bad.get("query", bad["why"][:30])}|{bad.get("node", "")}|{schedule}'
                     if 'positional argument follows keyword argument' in str(bad.get('error', '')):
                         sig = 'unparsable|arglike-positional-after-keyword'
+                    if edits.eof_trailing_space_case(before_src, op):
+                        sig = 'stmt-put-at-eof-without-newline-with-trailing-space-trivia'
                     ctx.violation(sig,
                                   'a query on the edited tree answers differently from the same query on a tree freshly built from its source',
                                   {'start_src': src, 'schedule': schedule, 'history': hist, 'src_now': root.src, **bad})
